@@ -10,7 +10,7 @@ from checks.zdirlab import Lab, norm_page
 
 PROPERTY = "C06"
 CONTRACTS = ["contracts.c06"]
-LEVEL = "other"
+LEVEL = "exploration"
 EXPLANATION = (
     "Contract-based: _get_file_hash_map (one entry per path considered, keyed by the path relative to the notes directory, "
     "value = hash of that file) is verified for every bounded list of paths over the file-system model. "
@@ -56,6 +56,19 @@ def run_history(pages, rng, nsteps):
                         i = rng.choice(idx)
                         lines[i] += " changed"
                         lab.write(rel, "\n".join(lines)); ops.append(("edit", rel, i))
+                elif r < 0.38 and names:
+                    # content replaced while the modification time stays old (cp -p, rsync -t, restore from backup)
+                    import os
+
+                    rel = rng.choice(names)
+                    lines = files[rel].split("\n")
+                    idx = C11._note_lines(files[rel])
+                    if idx:
+                        i = rng.choice(idx)
+                        lines[i] += " restored"
+                        lab.write(rel, "\n".join(lines))
+                        old_t = (lab.zdir / rel).stat().st_mtime - 7 * 86400
+                        os.utime(lab.zdir / rel, (old_t, old_t)); ops.append(("edit-old-mtime", rel, i))
                 elif r < 0.45 and names:
                     rel = rng.choice(names)
                     lab.write(rel, files[rel].rstrip("\n") + "\n\n- brand new note +fresh\n"); ops.append(("add-note", rel))
@@ -145,6 +158,8 @@ def histories(tier, seed):
         pages = {k: re.sub(r"^(-|[ox~<>])( P[0-9])?  +", lambda m: m.group(0).rstrip() + " ", v, flags=re.M) for k, v in pages.items()}
         # no ZID-less note with a leading modify date: that is C05's known finding F17, not a reindex question
         pages = {k: re.sub(r"^((?:-|[ox~<>])(?: P[0-9])? )[0-9]{6} (?![0-9]{6}#)", r"\1", v, flags=re.M) for k, v in pages.items()}
+        # no explicit modify date equal to the create date: that is C11's known finding F18
+        pages = {k: re.sub(r"^((?:-|[ox~<>])(?: P[0-9])? )([0-9]{6}) \2#", r"\1\2#", v, flags=re.M) for k, v in pages.items()}
         sub = random.Random(rng.random())
         err, ops = run_history(pages, sub, 5 if tier == "quick" else 9)
         nontriv += len(ops) >= 3
